@@ -181,6 +181,8 @@ POSITIONS = {
     "INPUT target": "10 INPUT A$",
     "LINE INPUT target": "10 LINE INPUT A$",
     "implicit string array": '10 A$(1)="x"',
+    "implicit string array, two-character name": '10 NM$(1)="x":Z9$(2)=NM$(1)',
+    "implicit numeric array, two-character name": "10 NM(1)=2:Z9(2)=NM(1)",
     "DIMensioned scalar": '10 DIM A$\n20 A$="x"',
     "DIMensioned array, configured size": '10 DIM N$(3)\n20 N$(1)="x"',
     "DIMensioned array and scalar of the same name": '10 DIM N$(3)\n20 N$="x":N$(1)=N$',
@@ -227,4 +229,5 @@ def positions():
 def obligations():
     # the requested size reaches the library through `string<<>>`: a sized string handed on inside the library keeps it
     from tx.p_c14 import sized_strings_stay_sized
-    return dim_contract() + pass_steps() + positions() + sized_strings_stay_sized()
+    from tx import p_c09
+    return dim_contract() + pass_steps() + positions() + sized_strings_stay_sized() + __import__("tx.p_c05", fromlist=["share"]).share("once/", p_c09.kinds_in_declarations())
